@@ -252,6 +252,12 @@ func runBytes(c *mon.Ctx, batch, batches int) {
 				})
 				m.must("oj.MustParse", cs, func() { oj.MustParse(x) })
 				m.must("oj.MustLoad", cs, func() { oj.MustLoad(bytes.NewReader(x)) })
+				m.call("oj.ParseString", cs, func() error { _, e := oj.ParseString(string(x)); return e })
+				m.must("oj.MustParseString", cs, func() { oj.MustParseString(string(x)) })
+				m.call("oj.ValidateString", cs, func() error { return oj.ValidateString(string(x)) })
+				m.call("oj.TokenizeString", cs, func() error { return oj.TokenizeString(string(x), &zeroH{}) })
+				m.call("oj.MatchString", cs, func() error { return oj.MatchString(string(x), func(jp.Expr, any) {}, matchTargets...) })
+				m.call("oj.MatchLoad", cs, func() error { return oj.MatchLoad(bytes.NewReader(x), func(jp.Expr, any) {}, matchTargets...) })
 			}
 		}
 		if !json {
@@ -268,6 +274,12 @@ func runBytes(c *mon.Ctx, batch, batches int) {
 		m.call("sen.Unmarshal(any)", cs, func() error { var v any; return sen.Unmarshal(x, &v) })
 		if len(x)%7 == 0 {
 			m.must("sen.MustParse", cs, func() { sen.MustParse(x) })
+			m.must("sen.MustParseReader", cs, func() { sen.MustParseReader(bytes.NewReader(x)) })
+			m.must("sen.Parser.MustParse", cs, func() { p := sen.Parser{}; p.MustParse(x) })
+			m.must("sen.Parser.MustParseReader", cs, func() { p := sen.Parser{}; p.MustParseReader(bytes.NewReader(x)) })
+			m.call("sen.TokenizeString", cs, func() error { return sen.TokenizeString(string(x), &zeroH{}) })
+			m.call("sen.MatchString", cs, func() error { return sen.MatchString(string(x), func(jp.Expr, any) {}, matchTargets...) })
+			m.call("sen.MatchLoad", cs, func() error { return sen.MatchLoad(bytes.NewReader(x), func(jp.Expr, any) {}, matchTargets...) })
 		}
 	}
 	jsonfe.Workload(c2, func(x []byte, src string) { visit(x, src, true) })
